@@ -12,7 +12,9 @@ Open Scope Z_scope.
 Record case := mkCase {
   c_loc : string; c_ka : kind; c_kb : kind;   (* the group; kind_code c_ka <= kind_code c_kb *)
   c_dyn : Z;          (* race-detector reports (or fatal concurrent-map aborts) mapped to this group *)
-  c_mapped : bool     (* false: a report whose two stacks match no pair of table entries *)
+  c_mapped : bool     (* false: an observation that cannot be reconciled with the table / the recorded findings: a report whose
+                         two stacks match no pair of table entries, a stress child that crashed, or a recorded finding
+                         that gained an access site since it was triaged (lib/props/C20_sites.json) *)
 }.
 
 Definition case_group (c : case) : group := (c_loc c, c_ka c, c_kb c).
